@@ -37,15 +37,20 @@ def main():
         rc, out = sh(["git", "-C", REPO, "worktree", "add", "-q", "--detach", wt, "HEAD"])
         assert rc == 0, out
         env = dict(os.environ, PYTHONPATH=wt, PYTHONDONTWRITEBYTECODE="1")
-        shutil.copy(demo, os.path.join(wt, "_demo.py"))
-        rc0, out0 = sh(["/venv/bin/python", "_demo.py"], cwd=wt, env=env, timeout=600)
+        # the demo runs from a directory of its own: outside the worktree (the suite's doctest collection imports
+        # every .py file there) and not next to another checkout of luqum (sys.path[0] is the script's directory)
+        ddir = tempfile.mkdtemp(prefix="seedtest-demo-", dir="/tmp")
+        demo_copy = os.path.join(ddir, "demo.py")
+        shutil.copy(demo, demo_copy)
+        demo = demo_copy
+        rc0, out0 = sh(["/venv/bin/python", demo], cwd=wt, env=env, timeout=600)
         report["demo_without_patch"] = rc0
         rc, out = sh(["git", "-C", wt, "apply", patch])
         report["patch_applies"] = rc == 0
         if rc != 0:
             report["apply_error"] = out[-500:]
         else:
-            rc1, out1 = sh(["/venv/bin/python", "_demo.py"], cwd=wt, env=env, timeout=600)
+            rc1, out1 = sh(["/venv/bin/python", demo], cwd=wt, env=env, timeout=600)
             report["demo_with_patch"] = rc1
             report["demo_output"] = out1[-600:]
             rcs, outs = sh("/venv/bin/python -m pytest -q -p no:cacheprovider 2>&1 | tail -3", cwd=wt, env=env, timeout=1800)
@@ -55,7 +60,9 @@ def main():
     finally:
         sh(["git", "-C", REPO, "worktree", "remove", "--force", wt])
         shutil.rmtree(wt, ignore_errors=True)
-    print(json.dumps({"step": "validate", **report}, ensure_ascii=False))
+        shutil.rmtree(os.path.dirname(demo), ignore_errors=True) if demo.startswith("/tmp/seedtest-demo-") else None
+    print("VALIDATE valid=%s demo_without=%s demo_with=%s suite=%r" % (
+        report.get("valid"), report.get("demo_without_patch"), report.get("demo_with_patch"), report.get("suite")))
     if not report["valid"]:
         return 1
     # ---- run the checks against the patched /repo
@@ -77,7 +84,12 @@ def main():
     finally:
         sh(["git", "-C", REPO, "checkout", "--", "."])
         sh(["git", "-C", REPO, "clean", "-fdq", "luqum"])
-    print(json.dumps({"step": "checks", "results": results}, ensure_ascii=False, indent=1))
+    for k, v in results.items():
+        print("CHECK %s exit=%d %s" % (k, v["exit"], " | ".join(v["lines"])[:330]))
+        if v["detail"]:
+            print("      " + v["detail"][:400])
+    if "json" in opts:
+        print(json.dumps({"step": "checks", "results": results}, ensure_ascii=False))
     return 0
 
 
